@@ -1,2 +1,85 @@
-(* C06 -- key locks. (statements to be added) *)
-From WB Require Import Base.Str Model.Key Model.Store Model.Core.
+(* C06 -- A key lock has one holder, is handed over first-come and dies with its session.
+   Statements only; proofs in Proofs/LockFacts.v.  The lock table is the function
+   [labs s : key path -> option lock]; a lock is (holder, waiting clients in order with
+   their pending acquire requests), so "at most one holder per key" holds by construction and
+   the theorems say how each request changes that function and which requests it confirms. *)
+From WB Require Import Base.Str Model.Key Model.Store Model.Core Proofs.StoreFacts Proofs.LockFacts.
+
+(* lock succeeds only on a free key or for the current holder; a refused lock changes nothing *)
+Theorem C06_lock_ok_iff_free_or_mine :
+  forall s c k p, parse_segments k = Ok p -> LInv s ->
+    LInv (fst (do_lock s c k)) /\
+    match labs s p with
+    | None => o_res (snd (do_lock s c k)) = RUnit /\
+              (forall q, labs (fst (do_lock s c k)) q = if path_eqb p q then Some (Lock c []) else labs s q)
+    | Some lk =>
+        (forall q, labs (fst (do_lock s c k)) q = labs s q) /\
+        (if N.eqb c (holder lk) then o_res (snd (do_lock s c k)) = RUnit
+         else o_res (snd (do_lock s c k)) = RErr E_KeyIsLocked)
+    end /\
+    o_granted (snd (do_lock s c k)) = [] /\ o_cancelled (snd (do_lock s c k)) = [].
+Proof. exact do_lock_spec. Qed.
+Print Assumptions C06_lock_ok_iff_free_or_mine.
+
+(* an acquire request gets a fresh id; it is confirmed at once exactly when the key is free or
+   already held by the requester, otherwise the client is queued (behind everybody who asked
+   before, at its old place if it already waits) and nothing is confirmed *)
+Theorem C06_acquire :
+  forall s c k p, parse_segments k = Ok p -> LInv s ->
+    LInv (fst (do_acquire s c k)) /\ o_res (snd (do_acquire s c k)) = RReq (next_req s) /\
+    next_req (fst (do_acquire s c k)) = next_req s + 1 /\ o_cancelled (snd (do_acquire s c k)) = [] /\
+    match labs s p with
+    | None => o_granted (snd (do_acquire s c k)) = [next_req s] /\
+              (forall q, labs (fst (do_acquire s c k)) q = if path_eqb p q then Some (Lock c []) else labs s q)
+    | Some lk =>
+        if N.eqb c (holder lk)
+        then o_granted (snd (do_acquire s c k)) = [next_req s] /\ (forall q, labs (fst (do_acquire s c k)) q = labs s q)
+        else o_granted (snd (do_acquire s c k)) = [] /\
+             (forall q, labs (fst (do_acquire s c k)) q =
+                        if path_eqb p q then Some (Lock (holder lk) (queue_cand c (next_req s) (cands lk))) else labs s q)
+    end.
+Proof. exact do_acquire_spec. Qed.
+Print Assumptions C06_acquire.
+
+Theorem C06_fifo_queue :
+  forall c r l, map fst (queue_cand c r l) = if has_client c l then map fst l else map fst l ++ [c].
+Proof. exact queue_cand_order. Qed.
+Print Assumptions C06_fifo_queue.
+
+(* release (also the per-key step of a session end): only the holder frees the lock; it passes to
+   the first waiting client, whose pending requests -- and only those -- are confirmed; a release
+   by anyone else leaves the holder in place, removes that client from the queue and cancels its
+   pending requests; other keys are untouched *)
+Theorem C06_release :
+  forall l c p, wfn l ->
+    let '(l', r, granted, cancelled, crash) := unlock l c p in
+    wfn l' /\
+    match lookup l p with
+    | None => r = Err E_KeyIsNotLocked /\ granted = [] /\ cancelled = [] /\ l' = l
+    | Some lk =>
+        if N.eqb c (holder lk) then
+          cancelled = [] /\
+          match cands lk with
+          | [] => r = Ok None /\ granted = [] /\
+                  (forall q, lookup l' q = if path_eqb p q then None else lookup l q)
+          | (c', rs) :: rest =>
+              r = Ok (Some c') /\ granted = rs /\ crash = false /\
+              (forall q, lookup l' q = if path_eqb p q then Some (Lock c' rest) else lookup l q)
+          end
+        else
+          r = Err E_KeyIsLocked /\ granted = [] /\ crash = false /\
+          cancelled = flat_map (fun cr => if N.eqb (fst cr) c then snd cr else []) (cands lk) /\
+          (forall q, lookup l' q =
+                     if path_eqb p q
+                     then Some (Lock (holder lk) (filter (fun cr => negb (N.eqb (fst cr) c)) (cands lk)))
+                     else lookup l q)
+    end.
+Proof. exact unlock_spec. Qed.
+Print Assumptions C06_release.
+
+(* non-vacuity: lock, two waiters, hand-over in order *)
+Example C06_nonvacuous :
+  map (fun o => (o_res o, o_granted o, o_cancelled o))
+      (run init [OLock 1 [107]; OAcquire 2 [107]; OAcquire 3 [107]; ORelease 3 [107]; ORelease 1 [107]; ODisconnected 2]) =
+  [(RUnit, [], []); (RReq 0, [], []); (RReq 1, [], []); (RErr 20, [], [1]); (RUnit, [0], []); (RUnit, [], [])].
+Proof. vm_compute. reflexivity. Qed.
